@@ -110,11 +110,16 @@ func AddUint32(a *uint32, d uint32) uint32     { pre(); r := atomic.AddUint32(a,
 func AddUint64(a *uint64, d uint64) uint64     { pre(); r := atomic.AddUint64(a, d); post(); return r }
 func AddUintptr(a *uintptr, d uintptr) uintptr { pre(); r := atomic.AddUintptr(a, d); post(); return r }
 
-func SwapInt32(a *int32, v int32) int32         { pre(); r := atomic.SwapInt32(a, v); post(); return r }
-func SwapInt64(a *int64, v int64) int64         { pre(); r := atomic.SwapInt64(a, v); post(); return r }
-func SwapUint32(a *uint32, v uint32) uint32     { pre(); r := atomic.SwapUint32(a, v); post(); return r }
-func SwapUint64(a *uint64, v uint64) uint64     { pre(); r := atomic.SwapUint64(a, v); post(); return r }
-func SwapUintptr(a *uintptr, v uintptr) uintptr { pre(); r := atomic.SwapUintptr(a, v); post(); return r }
+func SwapInt32(a *int32, v int32) int32     { pre(); r := atomic.SwapInt32(a, v); post(); return r }
+func SwapInt64(a *int64, v int64) int64     { pre(); r := atomic.SwapInt64(a, v); post(); return r }
+func SwapUint32(a *uint32, v uint32) uint32 { pre(); r := atomic.SwapUint32(a, v); post(); return r }
+func SwapUint64(a *uint64, v uint64) uint64 { pre(); r := atomic.SwapUint64(a, v); post(); return r }
+func SwapUintptr(a *uintptr, v uintptr) uintptr {
+	pre()
+	r := atomic.SwapUintptr(a, v)
+	post()
+	return r
+}
 func SwapPointer(a *unsafe.Pointer, v unsafe.Pointer) unsafe.Pointer {
 	pre()
 	r := atomic.SwapPointer(a, v)
